@@ -38,7 +38,7 @@ Proof.
   all: try (split; [congruence|intros; discriminate]).
 Qed.
 
-Definition okbad (m : mstate) : Prop := m_bad m = 0 \/ m_bad m = 6.
+Definition okbad (m : mstate) : Prop := m_bad m = 0 \/ m_bad m = 1 \/ m_bad m = 6 \/ m_bad m = 10.
 
 Ltac dK K := destruct K as [K1 K2 K3 K4 K5 K6 K7 K8 K9 K10 K11 K12 K13].
 
@@ -70,8 +70,10 @@ Lemma minv_note s m : MInv s m -> MInv s (note_reason m).
 Proof. intros K. unfold note_reason. destruct (all_reason m); [|exact K]. eapply minv_mon; eauto. Qed.
 Lemma okbad_note m : okbad m -> okbad (note_reason m).
 Proof. unfold note_reason, okbad. destruct (all_reason m); auto. Qed.
-Lemma okbad_bad6 m : okbad m -> okbad (bad m 6).
-Proof. unfold okbad, bad. intros [E|E]; rewrite E; simpl; auto. Qed.
+Lemma okbad_bad m c : c = 1 \/ c = 6 \/ c = 10 -> okbad m -> okbad (bad m c).
+Proof. unfold okbad, bad. intros C B. destruct (m_bad m) eqn:E; simpl; [intuition|rewrite E; exact B]. Qed.
+Lemma okbad_same m m' : m_bad m' = m_bad m -> okbad m -> okbad m'.
+Proof. unfold okbad. intros ->. auto. Qed.
 
 Ltac hsame := intros ?h; simpl; unfold set_h; simpl; upds; simpl; auto.
 Ltac mframe K := eapply minv_frame; [exact K | try reflexivity | try hsame | try reflexivity | try hsame | try hsame
@@ -133,3 +135,78 @@ Qed.
 
 
 
+
+Lemma minv_thr s m t q : MInv s m -> thr s t <> TMain ->
+  (forall h a, q <> TStopRead h a) -> (forall h a, q <> TStopCall h a) -> q <> TRunCheck ->
+  MInv (set_t s t q) m.
+Proof.
+  intros K NM N1 N2 N3. dK K. constructor; simpl; auto.
+  - intros t' h a X [Y|Y]; (updt t t'; [congruence|eauto]).
+  - intros X. destruct (K9 X) as [A B]. split; auto.
+    destruct (Nat.eq_dec (maint s) t) as [E|E]; [exfalso; apply NM; rewrite <- E; exact B | rewrite upd_other by exact E; exact B].
+  - destruct K10 as [A B]. split; auto. intros t' X. updt t t'; [congruence|eauto].
+Qed.
+
+Lemma cl_mframe s me p c s1 p' : cl_step s me p c = Some (s1, p') ->
+  nexth s1 = nexth s /\ (forall h, h_pub (hs s1 h) = h_pub (hs s h)) /\ pubClosed s1 = pubClosed s
+  /\ (forall h, h_subs (hs s1 h) = h_subs (hs s h))
+  /\ (forall h, h_startedCh (hs s h) = true -> h_startedCh (hs s1 h) = true)
+  /\ thr s1 = thr s /\ isRunning s1 = isRunning s /\ mainp s1 = mainp s /\ maint s1 = maint s /\ run_n s1 = run_n s.
+Proof.
+  unfold cl_step, close_unstarted. intros X. destruct p, c; try discriminate X; destr X; injection X as <- _; simpl;
+    repeat split; auto; intros h; destruct (removable (hs s h)); simpl; auto.
+Qed.
+
+(** labels whose only events are ones the monitor ignores or that set fields MInv does not mention *)
+Lemma minv_mainp s m p' : MInv s m -> mainp s <> RNone -> p' <> RNone ->
+  (main_past_lock p' = true -> main_past_lock (mainp s) = true) -> MInv (s <| mainp := p' |>) m.
+Proof.
+  intros K N N' P. dK K. constructor; simpl; auto.
+  destruct K10 as [A B]. split; auto.
+Qed.
+
+Ltac okb B := first [exact B | eapply okbad_same; [|exact B]; reflexivity].
+
+Lemma mstep_simple s m l s' evs : SInv s -> fix4 s = true -> MInv s m -> okbad m ->
+  (l = LCancel \/ l = LObsRunning \/
+   exists h, l = LStoppedGet h \/ l = LObsStarted h \/ l = LObsStopped h \/ l = LSubEnd h \/ l = LRecv h
+             \/ l = LPublish h \/ l = LSubCtx h \/ (exists b, l = LHC h b)) ->
+  step s l = Some (s', evs) -> MInv s' (mon_run m evs) /\ okbad (mon_run m evs).
+Proof.
+  intros I F4 K B [->|[->|(h & [->|[->|[->|[->|[->|[->|[->|(b & ->)]]]]]]])]] H; unfold step in H.
+  - (* LCancel *) injection H as <- <-. simpl. split; [|okb B].
+    eapply minv_mon; [mframe K|reflexivity..].
+  - (* LObsRunning *) destruct (runningCh s) eqn:R; [|discriminate]. injection H as <- <-. simpl.
+    assert (K' : MInv s (m <| m_running := true |>)).
+    { dK K. constructor; simpl; auto. intros _.
+      apply (i_isrun _ I). pose proof (i_running _ I R) as X. destruct (mainp s); try discriminate X; discriminate. }
+    destruct (m_closecalled m || forallb (m_subs m) (seq 0 (m_n_at_run m))).
+    + split; [exact K'|okb B].
+    + split; [now apply minv_bad|]. apply okbad_bad; auto.
+  - (* LStoppedGet *) destruct (Nat.ltb h (nexth s)); [|discriminate]. injection H as <- <-. simpl.
+    destruct (m_sobs m h) eqn:So; simpl; [|split; [exact K|exact B]].
+    apply (k_sobs _ _ K) in So. destruct (i_hrec _ I h). destruct (r_fix4 F4 (or_introl (r_sch So))) as [_ SS].
+    rewrite SS. simpl. split; [exact K|exact B].
+  - (* LObsStarted *) destr H. injection H as <- <-. bools. simpl. split; [|okb B].
+    dK K. constructor; simpl; auto. intros h'. unfold upd. destruct (Nat.eqb h' h) eqn:Q; auto.
+    apply Nat.eqb_eq in Q. subst. auto.
+  - (* LObsStopped *) destr H. injection H as <- <-. simpl. split; [|okb B]. eapply minv_mon; [exact K|reflexivity..].
+  - (* LSubEnd *) destr H. injection H as <- <-. simpl. split.
+    + apply minv_note. eapply minv_mon; [mframe K|reflexivity..].
+    + apply okbad_note. okb B.
+  - (* LRecv *) destr H. injection H as <- <-. simpl. split; [mframe K|exact B].
+  - (* LPublish *)
+    destruct (h_inflight (hs s h)) eqn:Fl; [discriminate|]. injection H as <- <-. simpl.
+    assert (Hlt : h < nexth s) by (eapply touched_lt; eauto; intros X; rewrite X in Fl; discriminate).
+    assert (K' : MInv (set_h s h (hs s h <| h_inflight := n |>)) m) by mframe K.
+    destruct (h_pub (hs s h)) eqn:P; simpl; [|split; [exact K'|exact B]].
+    destruct (pubClosed s p) eqn:PC; simpl; [|split; [exact K'|exact B]].
+    rewrite (k_pub _ _ K h Hlt), P, (k_pubclosed _ _ K p), PC. split; [exact K'|exact B].
+  - (* LSubCtx *) destr H. injection H as <- <-. simpl. split; [mframe K|exact B].
+  - (* LHC *)
+    destruct (h_hc (hs s h)); try discriminate H. unfold close_sub in H.
+    destr H; injection H as <- <-; simpl; (split; [|exact B]);
+      (eapply minv_frame; [exact K|reflexivity| | reflexivity | | |reflexivity..]);
+      intros h'; simpl; unfold set_h; simpl; upds; simpl; auto;
+      try (destruct (Nat.eqb _ _); simpl; auto).
+Qed.
